@@ -1,6 +1,9 @@
 package props
 
-import "verif/checker/internal/gen"
+import (
+	"verif/checker/internal/gen"
+	"verif/checker/internal/tmpl"
+)
 
 func init() {
 	register("C19", "other", func(c *Ctx) {
@@ -11,6 +14,6 @@ func init() {
 		gen.CheckRecursionFanout(c.Run, c.Prog)
 		gen.CheckLoadErrorsFatal(c.Run, c.Prog)
 		gen.PositiveControlPanics(c.Run, c.Prog)
-		c.RunSkeletons(SkelOpts{Rules: []string{"G-MOCK/error-returned", "G-MOCK/fail-stop"}, Notes: []string{"H-PANIC"}, Env: smallEnv})
+		c.RunSkeletons(SkelOpts{Rules: []string{"G-MOCK/error-returned", "G-MOCK/fail-stop"}, Notes: []string{"H-PANIC"}, Env: smallEnv, Formatters: tmpl.Formatters})
 	})
 }
